@@ -33,6 +33,24 @@ def run(rng):
     est = make(rng, eta)
     rep = {"X": X.tolist(), "eta": eta, "shape": [n, m]}
     fails = []
+    # "after BARTMAP.fit" includes a fit of an instance that was fitted before: same-shape matrix first
+    # (a column permutation of X or fresh values), then X; everything below is about the last fit
+    if rng.random() < 0.4:
+        # the earlier matrix spans [-1, 4] in every row and column, so that X (in [0, 3]) is legal for the
+        # data bounds the modules remember from their first prepare_data
+        X0 = 5.0 * (X[:, rng.sample(range(m), m)] if rng.random() < 0.6 else np.array([[rng.random() for _ in range(m)] for _ in range(n)])) - 1.0
+        X0 = np.clip(X0, -1.0, 4.0)
+        for i in range(max(n, m)):
+            X0[i % n, i % m] = -1.0
+            X0[i % n, (i + 1) % m] = 4.0
+        legal = all(X0[i].min() == -1.0 and X0[i].max() == 4.0 for i in range(n)) and all(X0[:, j].min() == -1.0 and X0[:, j].max() == 4.0 for j in range(m))
+        if legal:
+            try:
+                with np.errstate(all="ignore"), contextlib.redirect_stdout(io.StringIO()), C.time_limit(20):
+                    est.fit(X0)
+                rep["fitted_before_on"] = X0.tolist()
+            except Exception:
+                est = make(rng, eta)
     try:
         with np.errstate(all="ignore"), contextlib.redirect_stdout(io.StringIO()), C.time_limit(20):
             est.fit(X)
@@ -66,6 +84,7 @@ def run(rng):
     # the column clustering is what the column module alone produces on the transposed matrix
     import artlib
     alone = artlib.FuzzyART(**{k: v for k, v in est.module_b.params.items()})
+    alone.d_min_, alone.d_max_ = est.module_b.d_min_, est.module_b.d_max_      # same remembered data bounds
     Xb = alone.prepare_data(X.T)
     alone.fit(Xb)
     if list(alone.labels_) != cb:
@@ -96,7 +115,7 @@ def main():
     flow.decide(v, "C17", gate_ok, ob, list(zip(codes, summ)), fails, None)
     v.cov.update({
         "evaluations": n, "distinct_nontrivial": len(set(C.case_hash(s) for s in summ)),
-        "rule": "random 2-7 x 2-7 matrices (60% square), correlated columns in 30%, eta in {-1, 0, 0.5, 0.9}, Fuzzy ART row/column modules at several vigilances; "
+        "rule": "random 2-7 x 2-7 matrices (60% square), 40% on an instance already fitted on another same-shape matrix, correlated columns in 30%, eta in {-1, 0, 0.5, 0.9}, Fuzzy ART row/column modules at several vigilances; "
                 "non-trivial = distinct matrix on which fit completed",
         "traces_validated_against_impl": sum(1 for x in codes if x == 0), "distribution": shapes, "samples": summ[:1]})
     v.assumptions = ["the theorems are about the construction of rows_/columns_ from labels in range; the row veto (Pearson correlation) is not modelled: "
